@@ -948,6 +948,32 @@ fn lists_die(c: &Cfg, dwo: bool, root: &[(AName, AVal)], die: &[(AName, AVal)], 
     let cap = secs.ranges.len().max(secs.rnglists.len()).max(secs.loc.len()).max(secs.loclists.len()) + 3;
     let mut oracle: Option<String> = None;
     let ub = (unit.low_pc, unit.addr_base.0 as u64, unit.rnglists_base.0 as u64);
+    // the unit's bases as the standard / the GNU extension define them (each attribute at most once)
+    {
+        let count = |f: &dyn Fn(AName) -> bool| root.iter().filter(|(n, _)| f(*n)).count();
+        let is_ab = |n: AName| n == AName::ABase || n == AName::GABase;
+        let is_rb = |n: AName| n == AName::RBase || n == AName::GRBase;
+        if count(&is_ab) <= 1 && count(&is_rb) <= 1 && count(&|n| n == AName::LBase) <= 1 && count(&|n| n == AName::Low) <= 1 {
+            let sec = |f: &dyn Fn(AName) -> bool| root.iter().find_map(|(n, v)| if f(*n) { if let AVal::Sec(o) = v { Some(*o) } else { None } } else { None });
+            let hdr: u64 = if c.enc.version >= 5 && dwo { if c.enc.format == Format::Dwarf64 { 20 } else { 12 } } else { 0 };
+            let ab = sec(&is_ab).unwrap_or(0);
+            let rb = sec(&is_rb).unwrap_or(hdr);
+            let lb = sec(&|n| n == AName::LBase).unwrap_or(hdr);
+            let low = match root.iter().find(|(n, _)| *n == AName::Low).map(|(_, v)| *v) {
+                None => Some(0),
+                Some(AVal::Addr(a)) => Some(a),
+                Some(AVal::Addrx(i)) => naive_get_address(c, secs.addr, ab, i),
+                Some(_) => Some(0),
+            };
+            if let Some(low) = low {
+                let want = (low, ab, rb, lb);
+                let got = (unit.low_pc, unit.addr_base.0 as u64, unit.rnglists_base.0 as u64, unit.loclists_base.0 as u64);
+                if want != got {
+                    oracle = Some(format!("unit-bases-differ expected={want:?} got={got:?}"));
+                }
+            }
+        }
+    }
     let mut run = |which: &str, attrs: &[(AName, AVal)], r: gimli::Result<gimli::read::RangeIter<R>>| -> String {
         let evs: Result<Result<Vec<Ev<Rangeish>>, String>, gimli::Error> = r.map(|mut it| {
             drain(cap, || it.next()).map(|v| {
@@ -1100,7 +1126,7 @@ pub fn handle(op: &str, a: &[&str]) -> Option<String> {
                             Ev::Error(_) => Den::Undef,
                         }).collect();
                         if got != want {
-                            o = Some(format!("resolve-differs expected={want:?} got={ct}").replace(' ', ""));
+                            o = Some(format!("resolve-differs expected={want:?} got={ct}"));
                         } else {
                             o = check_yield(&c, v);
                         }
@@ -1126,11 +1152,11 @@ pub fn handle(op: &str, a: &[&str]) -> Option<String> {
             };
             let mut o = None;
             if t(&r1) != t(&r2) {
-                o = Some(format!("rnglists-loclists-differ {}/{}", t(&r1), t(&r2)).replace(' ', "_"));
+                o = Some(format!("rnglists-loclists-differ {}/{}", t(&r1), t(&r2)));
             } else {
                 let want = naive_get_offset(&c, &sec, base, idx);
                 if want != r1.as_ref().ok().copied() {
-                    o = Some(format!("offset-differs expected={want:?}").replace(' ', ""));
+                    o = Some(format!("offset-differs expected={want:?}"));
                 }
             }
             Some(with_oracle(t(&r1), o))
@@ -1147,7 +1173,7 @@ pub fn handle(op: &str, a: &[&str]) -> Option<String> {
                 Err(e) => format!("err {}", rerr(e)),
             };
             let want = naive_get_address(&c, &sec, base, idx);
-            let o = if want != r.ok() { Some(format!("address-differs expected={want:?}").replace(' ', "")) } else { None };
+            let o = if want != r.ok() { Some(format!("address-differs expected={want:?}")) } else { None };
             Some(with_oracle(t, o))
         }
         ("lists-die", [c, dwo, root, die, addr, ranges, rnglists, loc, loclists]) => {
